@@ -623,3 +623,71 @@ Definition concrete : list (config * config * env) :=
 Definition concrete_ok (x : config * config * env) : bool :=
   let '(ci, cr, e) := x in
   agrees ci cr e && match abs_of ci cr e with Some c => explore_ok c | None => true end.
+
+(* ------------------------------------------------------------------ Manager.sessions over connections *)
+(* The life cycle of smp.Manager.sessions on one device, across connections that reuse a handle.
+   A Connection object is identified by (handle, epoch): the epoch of a handle counts its
+   disconnections.  Manager.pair / Manager.on_smp_pdu register a session under the handle,
+   Session.on_pairing_failure ends it, a successful Session.on_pairing leaves it registered (it
+   answers LTK requests until the link goes down), Session.on_disconnection ends it
+   unconditionally. *)
+Inductive mgr_op :=
+| OpPair (h : Z)                    (* Manager.pair(connection) *)
+| OpPdu (h : Z) (request : bool)    (* Manager.on_smp_pdu: a Pairing Request, or any other command *)
+| OpEnded (h : Z) (failed : bool)   (* the session of that handle ended: on_pairing_failure / on_pairing *)
+| OpDisconnect (h : Z).             (* the connection goes down: Session.on_disconnection *)
+
+Record msession := mkMsession { ms_handle : Z; ms_epoch : Z; ms_id : Z; ms_completed : bool }.
+Record mgr := mkMgr { mg_sessions : list msession; mg_epochs : list (Z * Z); mg_next : Z }.
+
+Definition mgr0 : mgr := mkMgr [] [] 0.
+
+Definition epoch_of (g : mgr) (h : Z) : Z := match assoc h (mg_epochs g) with Some e => e | None => 0 end.
+
+Fixpoint find_session (h : Z) (l : list msession) : option msession :=
+  match l with [] => None | s :: l' => if ms_handle s =? h then Some s else find_session h l' end.
+Fixpoint drop_session (h : Z) (l : list msession) : list msession :=
+  match l with [] => [] | s :: l' => if ms_handle s =? h then drop_session h l' else s :: drop_session h l' end.
+
+Definition new_session (g : mgr) (h : Z) : mgr :=
+  mkMgr (mkMsession h (epoch_of g h) (mg_next g) false :: drop_session h (mg_sessions g))
+        (mg_epochs g) (mg_next g + 1).
+
+Definition mgr_step (g : mgr) (o : mgr_op) : mgr :=
+  match o with
+  | OpPair h => new_session g h                       (* self.sessions[connection.handle] = session *)
+  | OpPdu h request =>
+    match find_session h (mg_sessions g) with
+    | Some _ => g                                     (* handed to the registered session *)
+    | None => if request then new_session g h else g  (* only a Pairing Request starts a session *)
+    end
+  | OpEnded h failed =>
+    match find_session h (mg_sessions g) with
+    | None => g
+    | Some s =>
+      if failed then mkMgr (drop_session h (mg_sessions g)) (mg_epochs g) (mg_next g)
+      else mkMgr (mkMsession h (ms_epoch s) (ms_id s) true :: drop_session h (mg_sessions g))
+                 (mg_epochs g) (mg_next g)
+    end
+  | OpDisconnect h =>
+    mkMgr (drop_session h (mg_sessions g)) ((h, epoch_of g h + 1) :: mg_epochs g) (mg_next g)
+  end.
+
+Definition mgr_run (ops : list mgr_op) : mgr := fold_left mgr_step ops mgr0.
+
+(* every registered session belongs to the connection that is up now under its handle *)
+Definition mgr_ok (g : mgr) : bool :=
+  forallb (fun s => ms_epoch s =? epoch_of g (ms_handle s)) (mg_sessions g).
+
+(* the variant of seeded change C13-e: on_disconnection spares a completed session *)
+Definition mgr_step_spare (g : mgr) (o : mgr_op) : mgr :=
+  match o with
+  | OpDisconnect h =>
+    mkMgr (match find_session h (mg_sessions g) with
+           | Some s => if ms_completed s then mg_sessions g else drop_session h (mg_sessions g)
+           | None => mg_sessions g
+           end) ((h, epoch_of g h + 1) :: mg_epochs g) (mg_next g)
+  | _ => mgr_step g o
+  end.
+
+Definition session_count (g : mgr) : Z := Z.of_nat (length (mg_sessions g)).
